@@ -75,6 +75,13 @@ class Form(Harness):
                       lambda v: [("o", ("object", [("g", ("group", [("p", ("object", [("a", v)])), ("b", 1)]))]))]),
     }
     DEEP = ("deep", "deepblock")
+    # comments and line breaks directly after an element of a sequence / set (also after its units expression)
+    CONTEXTS.update({
+        "seqcmt": ("a = (", " /* c */, 2 /* d */)\nEND\n", lambda v: [("a", [v, 2])]),
+        "seqlast": ("a = (1,\n ", " /* last */\n)\nb = 2\nEND\n", lambda v: [("a", [1, v]), ("b", 2)]),
+        "setcmt": ("a = {", " /* only */}\nEND\n", lambda v: [("a", ("set", [v]))]),
+    })
+    ELEM = ("seqcmt", "seqlast", "setcmt")
 
     @property
     def bounds(self):
@@ -222,6 +229,11 @@ class Quoted(Form):
                 elif ch == "?":
                     c = ctx.fresh_char("c%d" % i)
                     ctx.assume(c.z != ord(self.q))
+                    if self.dialect in ("PVL", "ISIS"):
+                        from .c15 import spec_allowed
+                        a = spec_allowed("PVL", c.z)
+                        if not isinstance(a, bool):
+                            ctx.assume(a)
                     cs.append(c)
                 else:
                     cs.append(ch)
@@ -332,7 +344,7 @@ def obligations(tier):
     obs = []
     quick = tier == "quick"
     for d in LOADERS:
-        ctxs = [c for c in Form.CONTEXTS if c not in Form.DEEP or d in ("PVL", "ISIS", "Omni")]
+        ctxs = [c for c in Form.CONTEXTS if (c not in Form.DEEP or d in ("PVL", "ISIS", "Omni")) and c not in Form.ELEM]
         deep = [c for c in Form.DEEP if d in ("PVL", "ISIS", "Omni")]
         # based integers
         if d in ("PVL", "ISIS"):
@@ -367,6 +379,14 @@ def obligations(tier):
                 for n in (1, 2):
                     for c in ("plain", "semi", "seq" if after != "seq" else "plain"):
                         obs.append(Units(dialect=d, after=after, sp=sp, n=n, ctx=c))
+            for c in Form.ELEM:
+                if after == "seq" and c == "setcmt":
+                    continue          # a sequence (with or without units) cannot be a member of a Python set
+                obs.append(Units(dialect=d, after=after, sp=" ", n=1, ctx=c))
+        for c in Form.ELEM:
+            obs.append(Decimal(dialect=d, shape="sd.d", ctx=c))
+            obs.append(Quoted(dialect=d, q='"', n=1, ctx=c))
+            obs.append(Unquoted(dialect=d, n=2, ctx=c))
         kws = ("group", "object") + (("begin_group", "begin_object") if d not in ("ISIS",) else ())
         for kw in kws:
             for delim in (False, True):
